@@ -780,3 +780,83 @@ def c05(ctx):
     return "fault_enumeration", cov, ["'does this byte string encode that value' is a scanner, not a state predicate: the specification fixes when it must be "
                                       "false (always) and when the KEK may be used (Vault!KekOnlyAtOpen, validated per event)",
                                       "temporary files are observed as leftovers of killed saves (C04 driver) and at post-call points"]
+
+
+# ----------------------------------------------------------------------------- client store family
+def validate_branching(ctx, module, cfg, trace_path, parts, what, extra_files, timeout=1500, describe=None):
+    """Validate recorded histories against a trace specification that takes unlogged (silent) steps.
+    Acceptance = invariant NotDone violated (every line explained); the high-water mark tells where a
+    rejected history stopped. Rejected histories are reported, removed, and the rest re-validated."""
+    buckets = split_traces(trace_path, parts)
+    stats = {"histories": sum(len(b) for b in buckets), "accepted": 0, "states": 0, "rejected": 0, "events": 0}
+
+    def one(bi):
+        hs = list(buckets[bi])
+        out = {"accepted": 0, "states": 0, "rejected": [], "events": 0}
+        rounds = 0
+        while hs and rounds < 6:
+            rounds += 1
+            lines = [l for h in hs for l in h]
+            files = {"trace.ndjson": ("\n".join(lines) + "\n").encode()}
+            files.update(extra_files)
+            run = ctx.tlc(module, cfg, files=files, workers=1, deque=True, name="%s-b%d-r%d" % (what, bi, rounds), timeout=timeout, heap="3g")
+            out["states"] += run.distinct
+            errs = " ".join(run.errors)
+            if run.code != 0 and "NotDone" in errs:
+                out["accepted"] += len(hs)
+                out["events"] += len(lines)
+                break
+            if run.code != 0 and ("Invariant" in errs or "property" in errs.lower()):
+                lv = run.var_in_error_state("l")
+                hw = int(lv) if lv and lv.isdigit() else None
+                why = "a property of the specification is violated on this history: " + errs[:300]
+            elif run.code != 0:
+                raise ToolTrouble("TLC failed on %s:\n%s" % (module, run.tail(40)))
+            else:
+                hw = None
+                for ln in open(run.out, errors="replace"):
+                    if ln.startswith('<<"HW", '):
+                        hw = int(ln.split(",")[1].strip(" >\n"))
+                why = "the specification has no behaviour that produces the next line"
+            if hw is None or hw < 1:
+                raise ToolTrouble("TLC rejected histories without a usable position:\n" + run.tail(30))
+            hw = min(hw, len(lines))
+            pos, idx = 0, None
+            for i, h in enumerate(hs):
+                if pos + len(h) >= hw:
+                    idx = i
+                    break
+                pos += len(h)
+            out["accepted"] += idx
+            out["events"] += pos
+            out["rejected"].append({"history": hs[idx], "at": hw - pos, "why": why})
+            hs = hs[idx + 1:]
+        return out
+    for o in pmap(one, range(len(buckets)), par=NCPU):
+        for k in ("accepted", "states", "events"):
+            stats[k] += o[k]
+        for rj in o["rejected"]:
+            stats["rejected"] += 1
+            h = [json.loads(x) for x in rj["history"]]
+            at = max(1, min(rj["at"], len(h)))
+            ev = h[at - 1]
+            d = describe(ev) if describe else json.dumps(ev)[:200]
+            ctx.violation("%s rejected at %s" % (what, d),
+                          "TLC rejects a recorded history (%s): %s. Explained up to line %d of %d; first unexplained line: %s; preceding lines: %s" % (
+                              what, rj["why"], at - 1, len(h), json.dumps(ev)[:500], " | ".join(json.dumps(x)[:120] for x in h[max(0, at - 5):at - 1])),
+                          {"kind": "store-history", "history": h, "at": at})
+    return stats
+
+
+def describe_store_event(ev):
+    keep = {k: v for k, v in ev.items() if k not in ("t", "doc", "cache", "declared")}
+    return json.dumps(keep, sort_keys=True)[:160]
+
+
+def store_random(ctx, profile, n, parts=8, race=False):
+    results, wd, code = ctx.godrive("store", "^TestStoreRandom$", env={"VERIF_PROFILE": profile, "VERIF_TRACES": n}, name="store-" + profile,
+                                    race=race, timeout=1700)
+    r = ctx.take(results, "store-random")
+    st = validate_branching(ctx, "StoreTrace", "StoreTrace.cfg", os.path.join(wd, "trace.ndjson"), parts, "store/" + profile,
+                            {"dict.ndjson": os.path.join(wd, "dict.ndjson")}, describe=describe_store_event)
+    return r, st
